@@ -12,6 +12,8 @@ use std::time::Instant;
 
 pub use serde_json::{Value, json};
 
+pub mod model;
+
 // ---------------------------------------------------------------------------
 // RNG: splitmix64-seeded xoshiro256**. No external crate, identical on every
 // toolchain, so a witness seed replays exactly.
